@@ -25,7 +25,7 @@ CHECKS = {
  "C15": ("proof", AI + "; region checks and summary equivalence", "floor/ceil bracket, integrality, fixed points, ceil == -floor(-x) on the whole stated domain", "5 (C15)"),
  "C16": ("translation_validation", AI + "; summary equivalence of mixed-type operator vs explicitly promoted program; static_assert type witnesses", "9 carriers x 4 operators x 2 orders + 36 compound forms + double operand order", "5 (C16)"),
  "C17": ("proof", AI + "; summary equivalence / region checks on composed wrappers", "commutativity, a-b==a+(-b), identities, associativity and cancellation on the no-NaN regions; n-fold sum by instances + induction lemma", "5 (C17)"),
- "C19": ("other", "static analysis: exhaustive lint of the 1233 table literals in the linked IR against a big-integer interval oracle; " + AI + " for the index mapping and for the partition of the argument space into constant-result cells", "all table literals and extents; index congruent to d mod 360 for every int32 d; sqrt_aprox 2% and atan_index_aprox 1.25 by exhaustive partition into constant-result cells: every clause decided", "5 (C19), 6"),
+ "C19": ("proof", "static analysis: exhaustive lint of the 1233 table literals in the linked IR against a big-integer interval oracle; " + AI + " for the index mapping and for the partition of the argument space into constant-result cells", "all table literals and extents; index congruent to d mod 360 for every int32 d; sqrt_aprox 2% and atan_index_aprox 1.25 by exhaustive partition into constant-result cells: every clause decided", "5 (C19), 6"),
  "C18": ("proof", AI + "; per-shift-count region checks", "x>>r == floor(x/2^r) and x<<r exact-or-same-sign for each r in 0..63, NaN for r<0, & is bitwise and", "5 (C18)"),
  "C20": ("proof", AI + "; region checks on returned forms; summary equivalence across argument carriers; interval oracle for the pi constant", "angle_to_radians exact form and NaN domain for all 8 integral carriers, < 2 ulp of d*pi/180; integral and fixed_t carriers agree for sin/cos/tan_angle on |d| <= 360; the widened accuracy bounds for all 721 integer degrees by constant propagation; float carrier: f(float v) == f(fixed_t(v)) as programs and fixed_t(float(d)) == 65536 d for the 721 degrees: every clause decided", "5 (C20), 6"),
 }
